@@ -827,3 +827,97 @@ Proof.
   rewrite seq_version_is_max. apply lmax_ge_in. unfold af_feats. apply in_flat_map. exists u.
   split; [exact Hu | apply val_tp_in_af; exact T].
 Qed.
+(* ---------- lifting the per-pass results to the whole pipeline ---------- *)
+Lemma Forall2_compose {A B C} (R : A -> B -> Prop) (S : B -> C -> Prop) : forall l1 l2 l3,
+  Forall2 R l1 l2 -> Forall2 S l2 l3 -> Forall2 (fun a c => exists b, R a b /\ S b c) l1 l3.
+Proof.
+  intros l1 l2 l3 H; revert l3; induction H; intros l3 H'; inversion H'; subst; constructor; eauto.
+Qed.
+Lemma Forall2_impl {A B} (R S : A -> B -> Prop) : (forall a b, R a b -> S a b) ->
+  forall l1 l2, Forall2 R l1 l2 -> Forall2 S l1 l2.
+Proof. intros H l1 l2 HF; induction HF; constructor; auto. Qed.
+
+(* the later passes do not touch parse code, numbers, sequence header (except its version), transforms' wavelet *)
+Definition same_hdr (u u' : dunit) : Prop :=
+  u_parse_code u' = u_parse_code u /\ u_pic_number u' = u_pic_number u /\ u_frag_number u' = u_frag_number u /\
+  u_sh u' = u_sh u.
+Lemma same_hdr_number u u' : same_hdr u u' -> pn_kind u' = pn_kind u /\ number_of u' = number_of u.
+Proof.
+  intros (H1 & H2 & H3 & _). assert (K : pn_kind u' = pn_kind u) by (unfold pn_kind; rewrite H1; reflexivity).
+  split; [exact K|]. unfold number_of, pn_field. rewrite K, H2, H3. reflexivity.
+Qed.
+
+Lemma fin_len_same_hdr d : forall us prev, Forall2 same_hdr us (fin_len prev (map (po_unit d) us)).
+Proof.
+  induction us as [|u r IH]; intros prev; cbn [map fin_len]; constructor; auto.
+  unfold fin_unit, po_unit. cbn [m_unit m_npo_todo m_ppo_todo].
+  destruct (is_autoish (po_padaux d u)); destruct (is_autoish (u_ppo u)); unfold same_hdr; cbn; auto.
+Qed.
+
+Lemma mv_fill_same_numbers d mv : forall us b,
+  Forall2 (fun u u' => u_parse_code u' = u_parse_code u /\ u_pic_number u' = u_pic_number u /\ u_frag_number u' = u_frag_number u)
+          us (mv_fill d mv b us).
+Proof.
+  induction us as [|u r IH]; intros b; cbn [mv_fill]; [constructor|].
+  destruct (eff_parse_code d u =? PC_SEQUENCE_HEADER).
+  - destruct (mv_is_auto d (sh_major_version (u_sh u))); constructor; auto.
+  - constructor; auto. destruct (b && (mv <? 3)); auto.
+    unfold drop_unit_etp. destruct (tp_select d u); cbn; auto.
+Qed.
+
+(* the numbers in the serialised description are those assigned by the numbering pass *)
+Theorem picnum_final d start s i us :
+  nth_error s i = Some us ->
+  exists us', nth_error (autofill_stream d start s) i = Some us' /\
+    Forall2 (fun a b => pn_kind b = pn_kind a /\ number_of b = number_of a) (pn_seq d 4294967295 us) us'.
+Proof.
+  intros Hs. rewrite autofill_stream_per_sequence. exists (seq_out d us). split; [rewrite nth_error_map, Hs; reflexivity|].
+  unfold seq_out, seq_prep, mv_seq.
+  pose proof (mv_fill_same_numbers d (seq_version d (pn_seq d L0 us)) (pn_seq d L0 us) false) as H1.
+  pose proof (fin_len_same_hdr d (mv_fill d (seq_version d (pn_seq d L0 us)) false (pn_seq d L0 us)) None) as H2.
+  pose proof (Forall2_compose _ _ _ _ _ H1 H2) as H3.
+  eapply Forall2_impl; [|exact H3]. intros a c (b & (A1 & A2 & A3) & HB).
+  apply same_hdr_number in HB. destruct HB as [K N].
+  assert (K' : pn_kind b = pn_kind a) by (unfold pn_kind; rewrite A1; reflexivity).
+  split; [congruence|]. rewrite N. unfold number_of, pn_field. rewrite K', A2, A3. reflexivity.
+Qed.
+
+(* the version does not depend on picture numbers *)
+Lemma pn_unit_version d l mv u : unit_version d mv (fst (pn_unit d l u)) = unit_version d mv u.
+Proof. unfold pn_unit. destruct (pn_kind u); reflexivity. Qed.
+Lemma pn_seq_version d : forall us l mv,
+  fold_left (unit_version d) (pn_seq d l us) mv = fold_left (unit_version d) us mv.
+Proof.
+  induction us as [|u r IH]; intros l mv; [reflexivity|]. cbn [pn_seq].
+  pose proof (pn_unit_version d l mv u) as H. destruct (pn_unit d l u) as [u' l']. cbn [fst] in H.
+  cbn [fold_left]. rewrite IH, H. reflexivity.
+Qed.
+Lemma pn_seq_hdr d : forall us l,
+  Forall2 (fun u u' => u_parse_code u' = u_parse_code u /\ u_sh u' = u_sh u) us (pn_seq d l us).
+Proof.
+  induction us as [|u r IH]; intros l; cbn [pn_seq]; [constructor|].
+  assert (H : u_parse_code (fst (pn_unit d l u)) = u_parse_code u /\ u_sh (fst (pn_unit d l u)) = u_sh u).
+  { unfold pn_unit. destruct (pn_kind u); split; reflexivity. }
+  destruct (pn_unit d l u) as [u' l']. constructor; auto.
+Qed.
+
+(* whole pipeline: every automatic major_version of sequence i is the maximum over that sequence's features *)
+Theorem major_version_final d start s i us :
+  nth_error s i = Some us ->
+  exists us', nth_error (autofill_stream d start s) i = Some us' /\
+    Forall2 (fun u u' => (eff_parse_code d u =? PC_SEQUENCE_HEADER) = true ->
+                         mv_is_auto d (sh_major_version (u_sh u)) = true ->
+                         sh_major_version (u_sh u') = Explicit (seq_version d us)) us us'.
+Proof.
+  intros Hs. rewrite autofill_stream_per_sequence. exists (seq_out d us). split; [rewrite nth_error_map, Hs; reflexivity|].
+  unfold seq_out, seq_prep.
+  assert (EV : seq_version d (pn_seq d L0 us) = seq_version d us) by (unfold seq_version; apply pn_seq_version).
+  pose proof (pn_seq_hdr d us L0) as H1.
+  pose proof (mv_headers_filled d (pn_seq d L0 us)) as H2. rewrite EV in H2.
+  pose proof (fin_len_same_hdr d (mv_seq d (pn_seq d L0 us)) None) as H3.
+  pose proof (Forall2_compose _ _ _ _ _ (Forall2_compose _ _ _ _ _ H1 H2) H3) as H4.
+  eapply Forall2_impl; [|exact H4]. intros a c (b & (a1 & (A1 & A2) & HB) & (_ & _ & _ & C4)) Hpc Hau.
+  rewrite C4. apply HB.
+  - unfold eff_parse_code in *. rewrite A1. exact Hpc.
+  - rewrite A2. exact Hau.
+Qed.
